@@ -38,6 +38,14 @@ class Exclusion(SysTarget):
         mem_all = [f for f in sorted(cb_all) if not (os.path.islink(f) and os.path.realpath(f) in cb_all)]
         mem_ex = [f for f in sorted(cb_ex) if not (os.path.islink(f) and os.path.realpath(f) in cb_ex)]
         removed = [f for f in mem_all if f not in set(mem_ex)]
+        # the files removed are exactly those the ORDERED pattern list matches (oracle: git check-ignore, A6)
+        from native.C09 import git_ignored
+        rels = {f: os.path.relpath(f, src).replace(os.sep, "/") for f in mem_all}
+        ign = git_ignored(src, list(case["excludes"]), sorted(rels.values()))
+        want_removed = [f for f in mem_all if rels[f] in ign]
+        if want_removed != removed:
+            return {"expected": f"removed by {case['excludes']}: {[rels[f] for f in want_removed]}",
+                    "observed": f"{[rels[f] for f in removed]}", "klass": self.name + ":removed-files-are-not-the-matched-files"}
         got = dict(state.get_setmap(cb_ex))
         want = setmap_of(state, mem_ex)
         if got != want:
